@@ -79,8 +79,8 @@ Qed.
 
 Example expand_example :
   (* Inner<'x,'y> { a: &'x Op, b: &'y Op }; Outer<'u> { inner: Inner<'u,'u>, o: &'u Op } *)
-  let ds := [mkDef 0 [] []; mkDef 2 [] [TOpaque false (Some (Lt 0)) 0 []; TOpaque false (Some (Lt 1)) 0 []];
-             mkDef 1 [] [TStruct false 1 [Lt 0; Lt 0]; TOpaque false (Some (Lt 0)) 0 []]] in
+  let ds := [mkDef 0 [] []; mkDef 2 [] [TOpaque false false (Some (Lt 0)) 0 []; TOpaque false false (Some (Lt 1)) 0 []];
+             mkDef 1 [] [TStruct false 1 [Lt 0; Lt 0]; TOpaque false false (Some (Lt 0)) 0 []]] in
   sdepth_le ds 1 2 = true /\ accessor (def_of ds 2) 0 = [ANested 0 0; ANested 0 1; AField 1] /\
   expand ds 2 2 0 = [[0; 0]; [0; 1]; [1]].
 Proof. repeat split; vm_compute; reflexivity. Qed.
